@@ -315,6 +315,26 @@ func genC11(g *GenCtx) {
 		g.Op("has r 137")
 		g.Op("has r 138")
 	})
+	// an unreliable tube that nobody reads: its queue (maxBufferedPackets) fills, further datagrams and the
+	// FIN are dropped, the receiver goes on; in the second case the reader makes room for the FIN
+	for _, room := range []bool{false, true} {
+		room := room
+		fixed(func(x *gen, v *tube) {
+			x.openRemote(false, 9, 4)
+			for i := 0; i < 1000; i++ {
+				x.raw(muxh.Frame(9, "-", 0, uint32(i), []byte{byte(i), byte(i >> 8)}))
+			}
+			if room {
+				g.Op("read u 9 64")
+			} else {
+				x.raw(muxh.Frame(9, "-", 0, 1000, []byte{0xEE}))
+			}
+			x.raw(muxh.Frame(9, "F", 0, 1001, nil))
+			x.raw(muxh.Frame(9, "-", 0, 1002, []byte{0xEF}))
+			g.Op("read u 9 64")
+			g.Op("read u 9 64")
+		})
+	}
 	genFin(g, 3)
 	// Stop while the peer's datagrams keep arriving: a request (retransmission) for a tube that is closed
 	// but still in the map, a data frame, an ACK, junk - after the muxer's send queues were closed
